@@ -771,7 +771,9 @@ class EvolutionarySolver(RandomSearchSolver):
         ]
 
         for edge in edges:
-            possible_edges = set(edges) - circuit.find_incompatible_edges(edge)
+            incompatible_edges = circuit.find_incompatible_edges(edge)
+            # keep the list order: iterating a set of tuples with strings depends on the hash seed
+            possible_edges = [e for e in edges if e not in incompatible_edges]
 
             for another_edge in possible_edges:
                 edge_pair.append((edge, another_edge))
@@ -808,7 +810,9 @@ class EvolutionarySolver(RandomSearchSolver):
         ]
 
         for edge in e_edges:
-            possible_edges = set(p_edges) - circuit.find_incompatible_edges(edge)
+            incompatible_edges = circuit.find_incompatible_edges(edge)
+            # keep the list order: iterating a set of tuples with strings depends on the hash seed
+            possible_edges = [e for e in p_edges if e not in incompatible_edges]
 
             for another_edge in possible_edges:
                 edge_pair.append((edge, another_edge))
